@@ -1,5 +1,7 @@
 use unicode_segmentation::UnicodeSegmentation;
 
+use crate::fatal;
+
 #[derive(Debug, Clone)]
 pub struct TabCfg {
     replacement: String,
@@ -7,9 +9,13 @@ pub struct TabCfg {
 
 impl TabCfg {
     pub fn new(width: usize) -> Self {
-        TabCfg {
-            replacement: " ".repeat(width),
+        // `" ".repeat(width)` panics when the width is too large to allocate.
+        let mut replacement = String::new();
+        if replacement.try_reserve_exact(width).is_err() {
+            fatal(format!("Invalid value for tabs: {width}"));
         }
+        replacement.extend(std::iter::repeat(' ').take(width));
+        TabCfg { replacement }
     }
     pub fn width(&self) -> usize {
         self.replacement.len()
